@@ -327,6 +327,68 @@ Inductive rerr :=
 Inductive res (A : Type) := Ok (x : A) | Err (e : rerr) (pos : Z).
 Arguments Ok {A}. Arguments Err {A}.
 
+(* one item at the front of r (known to be non-empty), then the remaining items
+   through `rec` (the reader with less fuel) *)
+Definition dec_body (ops_fuel : nat) (rec : bool -> nat -> rstate -> res (list item * rstate))
+                    (top : bool) (w : nat) (r : rstate) : res (list item * rstate) :=
+  match read_fixed w r with
+  | None => Err ETruncated (fst r)
+  | Some (id, r1) =>
+    if id =? 0 then
+      if top then Err EEndAtTop (fst r)
+      else match read_align r1 with
+           | Some r2 => Ok ([], r2)
+           | None => Err EBadPadding (fst r1)
+           end
+    else if id =? 1 then
+      match read_vbr 8 r1 with
+      | None => Err ETruncated (fst r1)
+      | Some (bid, r2) =>
+        match read_vbr 4 r2 with
+        | None => Err ETruncated (fst r2)
+        | Some (nw, r3) =>
+          if (nw <? 2) || (nw >? 32) then Err (EBadAbbrevWidth nw) (fst r2) else
+          match read_align r3 with
+          | None => Err EBadPadding (fst r3)
+          | Some r4 =>
+            match read_fixed 32 r4 with
+            | None => Err ETruncated (fst r4)
+            | Some (len, r5) =>
+              match rec false (Z.to_nat nw) r5 with
+              | Err e p => Err e p
+              | Ok (body, r6) =>
+                if fst r6 =? fst r5 + 32 * len then
+                  match rec top w r6 with
+                  | Err e p => Err e p
+                  | Ok (rest, r7) => Ok (Blk bid (Z.to_nat nw) body :: rest, r7)
+                  end
+                else Err (EBlockLen len ((fst r6 - fst r5) / 32)) (fst r4)
+              end
+            end
+          end
+        end
+      end
+    else if id =? 2 then Err EDefineAbbrev (fst r)
+    else if id =? 3 then
+      match read_vbr 6 r1 with
+      | None => Err ETruncated (fst r1)
+      | Some (code, r2) =>
+        match read_vbr 6 r2 with
+        | None => Err ETruncated (fst r2)
+        | Some (n, r3) =>
+          match read_ops ops_fuel n r3 with
+          | None => Err ETruncated (fst r3)
+          | Some (ops, r4) =>
+            match rec top w r4 with
+            | Err e p => Err e p
+            | Ok (rest, r5) => Ok (Rec code ops :: rest, r5)
+            end
+          end
+        end
+      end
+    else Err (EUndefAbbrev id) (fst r)
+  end.
+
 (* items of one block (top = false: until END_BLOCK) or of the top level
    (top = true: until the input is exhausted) *)
 Fixpoint dec_items (fuel : nat) (top : bool) (w : nat) (r : rstate) : res (list item * rstate) :=
@@ -335,64 +397,7 @@ Fixpoint dec_items (fuel : nat) (top : bool) (w : nat) (r : rstate) : res (list 
   | S f =>
     match snd r with
     | [] => if top then Ok ([], r) else Err ETruncated (fst r)
-    | _ :: _ =>
-      match read_fixed w r with
-      | None => Err ETruncated (fst r)
-      | Some (id, r1) =>
-        if id =? 0 then
-          if top then Err EEndAtTop (fst r)
-          else match read_align r1 with
-               | Some r2 => Ok ([], r2)
-               | None => Err EBadPadding (fst r1)
-               end
-        else if id =? 1 then
-          match read_vbr 8 r1 with
-          | None => Err ETruncated (fst r1)
-          | Some (bid, r2) =>
-            match read_vbr 4 r2 with
-            | None => Err ETruncated (fst r2)
-            | Some (nw, r3) =>
-              if (nw <? 2) || (nw >? 32) then Err (EBadAbbrevWidth nw) (fst r2) else
-              match read_align r3 with
-              | None => Err EBadPadding (fst r3)
-              | Some r4 =>
-                match read_fixed 32 r4 with
-                | None => Err ETruncated (fst r4)
-                | Some (len, r5) =>
-                  match dec_items f false (Z.to_nat nw) r5 with
-                  | Err e p => Err e p
-                  | Ok (body, r6) =>
-                    if fst r6 =? fst r5 + 32 * len then
-                      match dec_items f top w r6 with
-                      | Err e p => Err e p
-                      | Ok (rest, r7) => Ok (Blk bid (Z.to_nat nw) body :: rest, r7)
-                      end
-                    else Err (EBlockLen len ((fst r6 - fst r5) / 32)) (fst r4)
-                  end
-                end
-              end
-            end
-          end
-        else if id =? 2 then Err EDefineAbbrev (fst r)
-        else if id =? 3 then
-          match read_vbr 6 r1 with
-          | None => Err ETruncated (fst r1)
-          | Some (code, r2) =>
-            match read_vbr 6 r2 with
-            | None => Err ETruncated (fst r2)
-            | Some (n, r3) =>
-              match read_ops f n r3 with
-              | None => Err ETruncated (fst r3)
-              | Some (ops, r4) =>
-                match dec_items f top w r4 with
-                | Err e p => Err e p
-                | Ok (rest, r5) => Ok (Rec code ops :: rest, r5)
-                end
-              end
-            end
-          end
-        else Err (EUndefAbbrev id) (fst r)
-      end
+    | _ :: _ => dec_body f (dec_items f) top w r
     end
   end.
 
@@ -423,6 +428,30 @@ Fixpoint item_size (it : item) : nat :=
 
 Fixpoint items_size (l : list item) : nat :=
   match l with [] => 1%nat | x :: l' => (item_size x + items_size l')%nat end.
+
+(* every block's body length in 32-bit words fits the uint32 length field
+   ("block size always fits in uint32", writer.go ExitBlock) *)
+Definition block_words (w : nat) (pos : Z) (id : Z) (nw : nat) (body : list bool) : Z :=
+  let inner := body ++ bits_of nw 0 in
+  Z.of_nat (length (inner ++ zeros (padlen (blk_body_start w pos id nw + Z.of_nat (length inner))))) / 32.
+
+Definition fits_list_with (f : Z -> item -> Prop) (g : Z -> item -> list bool) : list item -> Z -> Prop :=
+  fix go (l : list item) (p : Z) : Prop :=
+    match l with
+    | [] => True
+    | x :: l' => f p x /\ go l' (p + Z.of_nat (length (g p x)))
+    end.
+
+Fixpoint item_fits (w : nat) (pos : Z) (it : item) {struct it} : Prop :=
+  match it with
+  | Rec _ _ => True
+  | Blk id nw body =>
+    block_words w pos id nw (enc_list_with (enc_item nw) body (blk_body_start w pos id nw)) < two32 /\
+    fits_list_with (item_fits nw) (enc_item nw) body (blk_body_start w pos id nw)
+  end.
+
+Definition items_fits (w : nat) (pos : Z) (l : list item) : Prop :=
+  fits_list_with (item_fits w) (enc_item w) l pos.
 
 (* well-formed trees: what the writer's preconditions and Go's types demand *)
 Fixpoint item_wf (it : item) : Prop :=
